@@ -177,7 +177,7 @@ func c02Special(r *runner.Rng) (src string, t *term.Term, class string) {
 			parts[i] = r.Pick(ss)
 		}
 		e := strings.Join(parts, " + ")
-		forms := []string{"%s", "len(%s)", "%s == S", "%s contains \"a\"", "FnS(%s)", "%s in Strs", "(%s)[1:]", "%s matches \"^a\""}
+		forms := []string{"%s", "len(%s)", "%s == S", "%s contains \"a\"", "FnS(%s)", "%s in Strs", "(%s)[1:]", "%s matches \"^a\"", "S matches (%s)", "It.Name matches (%s)", "any(Strs, {# matches (%s)})"}
 		return fmt.Sprintf(forms[r.Intn(len(forms))], e), nil, "string-fold"
 	default: // mixtures with dynamic values
 		forms := []string{"AnyI + 1 * 2", "AnyI in [1, 2, 3]", "AnyS in [\"a\", \"b\"]", "MA[\"a\"] in 1..3", "AnyN in [1]", "(P ? 1 : 2.5) in 1..3", "(P ? 1 : \"a\") in [1, 2]",
